@@ -38,7 +38,7 @@ def _cases() -> List[dict]:
 
 def plan(tier: str) -> dict:
     return {
-        "runs": 30000 if tier == "quick" else 400000,
+        "runs": 30000 if tier == "quick" else 1000000,
         "budget": 150 if tier == "quick" else 900,
         "cases": _cases(),
         "chunk": 30,
